@@ -100,6 +100,10 @@ pub struct Report {
     pub notes: Vec<String>,
     /// inputs worth keeping as regression corpus entries (the failing ones), see `corpus.rs`
     pub corpus_candidates: Vec<String>,
+    /// dependency mode: the direct comparisons of the functions a property's theorems rest on are being run
+    /// for another property; only correspondence breaks (CORR) and machinery errors count there, not the
+    /// oracles of the property those functions belong to
+    pub dep_mode: bool,
 }
 
 #[derive(Clone, Debug)]
@@ -137,6 +141,16 @@ impl Report {
         self.distinct.insert(h.finish());
     }
     pub fn fail(&mut self, f: Failure) {
+        let mut f = f;
+        if self.dep_mode {
+            if f.kind == "ORACLE" {
+                return;
+            }
+            if f.kind == "CORR" {
+                f.class = format!("dep-{}", f.class);
+                f.clause = format!("a function this property's theorems rest on no longer corresponds to its model — {}", f.clause);
+            }
+        }
         // keep at most a few failures per (kind, op, class): the first is the replay
         let n = self.failures.iter().filter(|g| g.kind == f.kind && g.op == f.op && g.class == f.class).count();
         self.count(&format!("fail.{}.{}", f.kind, f.op));
